@@ -58,3 +58,8 @@ M("c07-start-value-none-means-not-started", "C07", TASKS, "TaskHandle.start_valu
 N("c07-n-start-value-hasattr", "C07", TASKS, "TaskHandle.start_value",
   "        try:\n            return self._start_value\n        except AttributeError:\n            raise RuntimeError(\n                \"the task was not started with TaskGroup.start()\"\n            ) from None",
   "        if not hasattr(self, \"_start_value\"):\n            raise RuntimeError(\"the task was not started with TaskGroup.start()\")\n\n        return self._start_value")
+
+# from seeded change C07/g (round 4): cancel() flips PENDING to CANCELLING, the wait is never reached
+M("c07-start-cancels-before-the-pending-test", "C07", A, "TaskGroup.start",
+  "            if handle.status is TaskHandle.Status.PENDING:\n                # Cancel the task and wait for it to exit before returning\n                handle.cancel()\n",
+  "            handle.cancel()\n            if handle.status is TaskHandle.Status.PENDING:\n", ["R07-a"])
